@@ -47,23 +47,59 @@ contract("monkeytype.stubs:shrink_traced_types", props=["C01", "C04", "C14"], th
                 "tags": {"arg_types": "DDict:set", "return_types": "set", "yield_types": "set"}})
 
 
-contract("monkeytype.stubs:FunctionDefinition.from_callable_and_traced_types", props=["C01", "C11", "C12"], theories=TH, mode="assumed",
+_TH_R = TH + ["replace", "sig"]
+contract("monkeytype.stubs:FunctionDefinition.from_callable", props=["C12", "C01"], theories=_TH_R + ["stubs", "enc", "cli", "path"],
+         params={"cls": "any", "func": "Func", "kind": "any"}, result="FunctionDefinition",
+         requires={"names": "is_str_(func.__module__) and is_str_(func.__qualname__)"},
+         # module, qualified name, kind (read off the descriptor found under the qualified name), the function's own signature and async flag; no generated classes
+         ensures={"post:fields": "result.module is func.__module__ and result.qualname is func.__qualname__ and result.kind is FunctionKind.from_callable(func)"
+                                 " and result.signature is sig_of(func) and result.is_async == is_coro_fn(func) and len(result.typed_dict_class_stubs) == 0"},
+         raises={"NameLookupError": "not resolvable(func.__module__, func.__qualname__)", "ValueError": "sig_unavailable(func)"})
+
+_ANN = "({a} is EMPTY or {a} is ELLIPSIS_ or wf_ann({a}))"
+_SZ = "1 <= len(cs_attrs(s)) and len(cs_attrs(s)) <= k"
+contract("monkeytype.stubs:FunctionDefinition.from_callable_and_traced_types", props=["C01", "C11", "C12", "C06"], theories=_TH_R + ["stubs", "enc", "cli", "path"], records=("monkeytype.stubs:ClassStub",),
          params={"cls": "any", "func": "Func", "arg_types": "Dict[str,Ty]", "return_type": "Opt[Ty]", "yield_type": "Opt[Ty]", "existing_annotation_strategy": "Enum:ExistingAnnotationStrategy"},
          result="FunctionDefinition",
-         ensures={"post:annotations-modelled": "result is not None and forall(params_of(result.signature), lambda p: (panno(p) is EMPTY or panno(p) is ELLIPSIS_ or wf_rw(panno(p)) or kind(panno(p)) is K_ForwardRef) and panno(p) is not UNION_BARE)"
-                                               " and (ret_of(result.signature) is EMPTY or ret_of(result.signature) is ELLIPSIS_ or wf_rw(ret_of(result.signature)) or kind(ret_of(result.signature)) is K_ForwardRef)"},
-         note="replaces anonymous TypedDicts by class stubs and calls update_signature_args / update_signature_return (both proved): bounded (C11 / C12 companions); "
-              "assumed: the annotations of the resulting signature (traced types, forward references to generated classes, existing source annotations) are within the modelled type grammar")
+         requires={"types-wf": "is_dictlike_(arg_types) and forall(arg_types, lambda n: wf_rw(lookup(arg_types, n)) and lookup(arg_types, n) is not ELLIPSIS_)"
+                               " and implies(return_type is not None, wf_rw(return_type) and return_type is not ELLIPSIS_)"
+                               " and implies(yield_type is not None, wf_rw(yield_type) and yield_type is not ELLIPSIS_)",
+                   "strategy": "existing_annotation_strategy is REPLICATE or existing_annotation_strategy is IGNORE or existing_annotation_strategy is OMIT"},
+         # what the function's own source annotations are is outside MonkeyType: assumed to be within the modelled annotation grammar (or absent)
+         assumes={# an *empty* anonymous TypedDict makes the replacement raise; none is ever inferred or produced by a merge (C06: between 1 and k keys - proved for a fixed limit),
+                  # assumed here for whatever a store hands back
+                  "no-empty-typeddict": "forall(arg_types, lambda n: td_ne(lookup(arg_types, n))) and implies(return_type is not None, td_ne(return_type)) and implies(yield_type is not None, td_ne(yield_type))",
+                  # the function was found through its module and qualified name (tracer lookup / decoding), and is a Python function inspect can describe
+                  "function-resolvable": "resolvable(func.__module__, func.__qualname__) and not sig_unavailable(func)",
+                  "source-annotations-modelled": "forall(params_of(sig_of(func)), lambda p: %s and panno(p) is not UNION_BARE) and %s" % (_ANN.format(a="panno(p)"), _ANN.format(a="ret_of(sig_of(func))")),
+                  "no-class-named-like-a-handler": "forall_v(lambda c: implies(is_class(c) and kind(c) is K_Class, not is_dispatch_name(cname(c))))"},
+         ensures={
+             # every annotation of the resulting signature is within the annotation grammar the import / rendering contracts are stated for
+             "post:annotations-modelled": "result is not None and forall(params_of(result.signature), lambda p: %s and panno(p) is not UNION_BARE) and %s"
+                                          % (_ANN.format(a="panno(p)"), _ANN.format(a="ret_of(result.signature)")),
+             "post:fields": "result.module is func.__module__ and result.qualname is func.__qualname__ and result.kind is FunctionKind.from_callable(func) and result.is_async == is_coro_fn(func)",
+             # C06: every generated class stub has between 1 and k fields whenever every TypedDict node of every traced type has
+             "post:class-stubs-size": "forall_int(lambda k: implies(td_okd_fields(arg_types, k) and implies(return_type is not None, td_okd(return_type, k)) and implies(yield_type is not None, td_okd(yield_type, k)),"
+                                      " forall_v(lambda s: implies(has(result.typed_dict_class_stubs, s), %s))))" % _SZ,
+         },
+         loops={0: {"iter": "arg_types.items()",
+                    "inv": {"new-wf": "is_dictlike_(new_arg_types) and forall_v(lambda n: implies(has(new_arg_types, n), wf_ann(lookup(new_arg_types, n)) and lookup(new_arg_types, n) is not ELLIPSIS_))",
+                            "size": "forall_int(lambda k: implies(td_okd_fields(arg_types, k), forall_v(lambda s: implies(has(typed_dict_class_stubs, s), %s))))" % _SZ}},
+                "tags": {"new_arg_types": "Dict[str,Ty]", "typed_dict_class_stubs": "Seq[TDStub]"}},
+         note="existing source annotations are assumed to be within the annotation grammar (strings, arbitrary objects are possible in real sources: bounded companions C12 / C13)")
 
 _COVER = ("forall(traces, lambda t: forall(t.arg_types, lambda n: has(L_arg_types, n)"
           " and forall_val(lambda v: implies(mem(v, lookup(t.arg_types, n)), mem(v, lookup(L_arg_types, n))))))")
-contract("monkeytype.stubs:get_updated_definition", props=["C01", "C14"], theories=TH,
+contract("monkeytype.stubs:get_updated_definition", props=["C01", "C14", "C06"], theories=TH + ["replace"],
          params={"func": "Func", "traces": "Seq[Trace]", "max_typed_dict_size": "Opt[int]", "rewriter": "Opt[Rewriter]", "existing_annotation_strategy": "Enum:ExistingAnnotationStrategy"},
          result="FunctionDefinition",
-         requires={"k-int": "max_typed_dict_size is not None", "types-wf": "forall(traces, lambda t: t is not None and is_dictlike_(t.arg_types) and forall(t.arg_types, lambda n: wf_rw(lookup(t.arg_types, n)) and lookup(t.arg_types, n) is not ELLIPSIS_ and lookup(t.arg_types, n) is not None)"
+         requires={"strategy": "existing_annotation_strategy is REPLICATE or existing_annotation_strategy is IGNORE or existing_annotation_strategy is OMIT", "k-int": "max_typed_dict_size is not None", "types-wf": "forall(traces, lambda t: t is not None and is_dictlike_(t.arg_types) and forall(t.arg_types, lambda n: wf_rw(lookup(t.arg_types, n)) and lookup(t.arg_types, n) is not ELLIPSIS_ and lookup(t.arg_types, n) is not None)"
                                " and implies(t.return_type is not None, wf_rw(t.return_type) and t.return_type is not ELLIPSIS_)"
                                " and implies(t.yield_type is not None, wf_rw(t.yield_type) and t.yield_type is not ELLIPSIS_))"},
          assumes={"no-class-named-like-a-handler": "forall_v(lambda c: implies(is_class(c) and kind(c) is K_Class, not is_dispatch_name(cname(c))))"},
+         hints={"H-deep": "implies(forall(traces, lambda t: forall(t.arg_types, lambda n: td_okd(lookup(t.arg_types, n), max_typed_dict_size)) and implies(t.return_type is not None, td_okd(t.return_type, max_typed_dict_size)) and implies(t.yield_type is not None, td_okd(t.yield_type, max_typed_dict_size))), forall(L_arg_types, lambda n: td_okd(lookup(L_arg_types, n), max_typed_dict_size))"
+                                  " and implies(L_return_type is not None, td_okd(L_return_type, max_typed_dict_size)) and implies(L_yield_type is not None, td_okd(L_yield_type, max_typed_dict_size)))",
+                "H-fields": "implies(forall(traces, lambda t: forall(t.arg_types, lambda n: td_okd(lookup(t.arg_types, n), max_typed_dict_size)) and implies(t.return_type is not None, td_okd(t.return_type, max_typed_dict_size)) and implies(t.yield_type is not None, td_okd(t.yield_type, max_typed_dict_size))), td_okd_fields(L_arg_types, max_typed_dict_size))"},
          ensures={
              # C01 glue: after merging and rewriting, the type handed on for every position still admits everything any trace recorded there
              "post:args-cover": _COVER,
@@ -74,7 +110,9 @@ contract("monkeytype.stubs:get_updated_definition", props=["C01", "C14"], theori
              # C06: after merging and rewriting, the types handed to stub generation keep every TypedDict node within the limit
              "post:td-size-deep": "implies(forall(traces, lambda t: forall(t.arg_types, lambda n: td_okd(lookup(t.arg_types, n), max_typed_dict_size)) and implies(t.return_type is not None, td_okd(t.return_type, max_typed_dict_size)) and implies(t.yield_type is not None, td_okd(t.yield_type, max_typed_dict_size))), forall(L_arg_types, lambda n: td_okd(lookup(L_arg_types, n), max_typed_dict_size))"
                                   " and implies(L_return_type is not None, td_okd(L_return_type, max_typed_dict_size)) and implies(L_yield_type is not None, td_okd(L_yield_type, max_typed_dict_size)))",
-             "post:annotations-modelled": "(result is not None and forall(params_of(result.signature), lambda p: (panno(p) is EMPTY or panno(p) is ELLIPSIS_ or wf_rw(panno(p)) or kind(panno(p)) is K_ForwardRef) and panno(p) is not UNION_BARE) and (ret_of(result.signature) is EMPTY or ret_of(result.signature) is ELLIPSIS_ or wf_rw(ret_of(result.signature)) or kind(ret_of(result.signature)) is K_ForwardRef))",
+             # C06 in the generated classes: every TypedDict class stub of the definition has between 1 and max_typed_dict_size fields (none is generated for a limit <= 0)
+             "post:class-stubs-size": "implies(forall(traces, lambda t: forall(t.arg_types, lambda n: td_okd(lookup(t.arg_types, n), max_typed_dict_size)) and implies(t.return_type is not None, td_okd(t.return_type, max_typed_dict_size)) and implies(t.yield_type is not None, td_okd(t.yield_type, max_typed_dict_size))), forall_v(lambda s: implies(has(result.typed_dict_class_stubs, s), 1 <= len(cs_attrs(s)) and len(cs_attrs(s)) <= max_typed_dict_size)))",
+             "post:annotations-modelled": "(result is not None and forall(params_of(result.signature), lambda p: (panno(p) is EMPTY or panno(p) is ELLIPSIS_ or wf_ann(panno(p))) and panno(p) is not UNION_BARE) and (ret_of(result.signature) is EMPTY or ret_of(result.signature) is ELLIPSIS_ or wf_ann(ret_of(result.signature))))",
          })
 
 
@@ -123,8 +161,8 @@ contract("monkeytype.stubs:build_module_stubs", props=["C12", "C14", "C01"], the
                    "ClassStub.attribute_stubs", "ImportBlockStub.imports"],
          params={"entries": "Seq[FunctionDefinition]"}, result="StubMap",
          requires={"annos-wf": "forall(entries, lambda e: e is not None and forall(params_of(e.signature), lambda p: %s and panno(p) is not UNION_BARE) and %s)"
-                               % ("(panno(p) is EMPTY or panno(p) is ELLIPSIS_ or wf_rw(panno(p)) or kind(panno(p)) is K_ForwardRef)",
-                                  "(ret_of(e.signature) is EMPTY or ret_of(e.signature) is ELLIPSIS_ or wf_rw(ret_of(e.signature)) or kind(ret_of(e.signature)) is K_ForwardRef)")},
+                               % ("(panno(p) is EMPTY or panno(p) is ELLIPSIS_ or wf_ann(panno(p)))",
+                                  "(ret_of(e.signature) is EMPTY or ret_of(e.signature) is ELLIPSIS_ or wf_ann(ret_of(e.signature)))")},
          ensures={"post:" + k_: v_ for k_, v_ in _bms_clauses("tag_(result, 'Dict[str,ModuleStub]')", "len(entries)").items()},
          loops={0: {"iter": "entries", "inv": _bms_clauses("tag_(mod_stubs, 'Dict[str,ModuleStub]')", "_i")},
                 "tags": {"mod_stubs": "Dict[str,ModuleStub]"}},
@@ -136,7 +174,8 @@ _TWF = ("forall({ts}, lambda t: t is not None and is_dictlike_(t.arg_types) and 
 contract("monkeytype.stubs:build_module_stubs_from_traces", props=["C01", "C10", "C14", "C12"], theories=TH + ["stubs", "imports", "enc", "cli", "path"],
          params={"traces": "Seq[Trace]", "max_typed_dict_size": "Opt[int]", "existing_annotation_strategy": "Enum:ExistingAnnotationStrategy", "rewriter": "Opt[Rewriter]"},
          result="StubMap", hide="*",
-         requires={"k-int": "max_typed_dict_size is not None", "types-wf": _TWF.format(ts="traces")},
+         requires={"k-int": "max_typed_dict_size is not None", "types-wf": _TWF.format(ts="traces"),
+                   "strategy": "existing_annotation_strategy is REPLICATE or existing_annotation_strategy is IGNORE or existing_annotation_strategy is OMIT"},
          assumes={"no-class-named-like-a-handler": "forall_v(lambda c: implies(is_class(c) and kind(c) is K_Class, not is_dispatch_name(cname(c))))"},
          ensures={
              # every trace is grouped under the function it belongs to, nothing else is; one definition per traced function, built with the
@@ -155,7 +194,7 @@ contract("monkeytype.stubs:build_module_stubs_from_traces", props=["C01", "C10",
                 1: {"iter": "index.items()",
                     "inv": {"defs": "len(defns) == _i and forall(range_(0, _i), lambda j: nth(defns, j) is get_updated_definition(nth(index, j), lookup(index, nth(index, j)),"
                                     " max_typed_dict_size, rewriter, existing_annotation_strategy))",
-                            "defs-modelled": "forall(range_(0, _i), lambda j: (tag_(nth(defns, j), 'FunctionDefinition') is not None and forall(params_of(tag_(nth(defns, j), 'FunctionDefinition').signature), lambda p: (panno(p) is EMPTY or panno(p) is ELLIPSIS_ or wf_rw(panno(p)) or kind(panno(p)) is K_ForwardRef) and panno(p) is not UNION_BARE) and (ret_of(tag_(nth(defns, j), 'FunctionDefinition').signature) is EMPTY or ret_of(tag_(nth(defns, j), 'FunctionDefinition').signature) is ELLIPSIS_ or wf_rw(ret_of(tag_(nth(defns, j), 'FunctionDefinition').signature)) or kind(ret_of(tag_(nth(defns, j), 'FunctionDefinition').signature)) is K_ForwardRef)))"}},
+                            "defs-modelled": "forall(range_(0, _i), lambda j: (tag_(nth(defns, j), 'FunctionDefinition') is not None and forall(params_of(tag_(nth(defns, j), 'FunctionDefinition').signature), lambda p: (panno(p) is EMPTY or panno(p) is ELLIPSIS_ or wf_ann(panno(p))) and panno(p) is not UNION_BARE) and (ret_of(tag_(nth(defns, j), 'FunctionDefinition').signature) is EMPTY or ret_of(tag_(nth(defns, j), 'FunctionDefinition').signature) is ELLIPSIS_ or wf_ann(ret_of(tag_(nth(defns, j), 'FunctionDefinition').signature)))))"}},
                 "tags": {"index": "DDict:set", "defns": "Seq[FunctionDefinition]"}})
 
 # ---- C12: the decorator and the async keyword follow the function's kind
